@@ -112,3 +112,41 @@ def net_lp(spec, obj=None, direction=None, extra_rows=()):
     sign = 1 if direction == "max" else -1
     c = [sign * F(obj.get(r, "0")) for r in rids]
     return (n, vb, rows, c), rids, mids, sign
+
+
+HISTORIES = [None, None, "optimize", "ctx_solve", "ctx_infeasible", "deletion", "fva_one", "min_solve"]
+
+
+def prior_history(m, kind):
+    """What the same model object went through before the analysis under test.  Each of these leaves the model as it was (C13) but leaves its
+    traces in the solver object: status, objective value, primal and dual values of another problem."""
+    import warnings
+    if not kind or not len(m.reactions):
+        return
+    try:
+        with warnings.catch_warnings():
+            warnings.simplefilter("ignore")
+            if kind == "optimize":
+                m.optimize()
+            elif kind == "ctx_solve":
+                with m:
+                    for r in list(m.reactions)[:2]:
+                        r.bounds = (r.lower_bound / 4, r.upper_bound / 4)
+                    m.slim_optimize()
+            elif kind == "ctx_infeasible":
+                with m:
+                    r = m.reactions[0]
+                    r.bounds = (r.upper_bound + 1, r.upper_bound + 2)
+                    m.slim_optimize()
+            elif kind == "deletion":
+                from cobra.flux_analysis import single_reaction_deletion
+                single_reaction_deletion(m, [m.reactions[-1]], processes=1)
+            elif kind == "fva_one":
+                from cobra.flux_analysis import flux_variability_analysis
+                flux_variability_analysis(m, reaction_list=[m.reactions[0]], fraction_of_optimum=0.5, processes=1)
+            elif kind == "min_solve":
+                with m:
+                    m.objective_direction = "min" if m.objective_direction == "max" else "max"
+                    m.slim_optimize()
+    except Exception:
+        pass
